@@ -170,6 +170,25 @@ def run(ctx):
         p.count("timeout=%s" % timeout)
     C05.run_timed(p, hs, ctx)
     streams.append(p)
+
+    # the replies depend on the unit and on whether a transfer is open - not on the working directory: the same kind of
+    # sequences with the optional raw-copy folder ./astm_messages present (EOT then also writes a file)
+    import os
+    import shutil
+    from harness import impl
+    wf = Stream("with-raw-copy-folder")
+    store = os.path.join(impl.private_cwd(), "astm_messages")
+    shutil.rmtree(store, ignore_errors=True)
+    os.makedirs(store)
+    try:
+        hs = []
+        for _ in range(3000 if ctx.thorough else 300):
+            evs, kinds = history(r, r.choice([3, 5, 8, 13, 21]))
+            hs.append((r.choice(FORMATS), evs + gens.PROBE, {"kinds": kinds, "nontrivial": nontrivial(kinds)}))
+        run_histories_fmt(wf, hs, ctx)
+    finally:
+        shutil.rmtree(store, ignore_errors=True)
+    streams.append(wf)
     return streams
 
 
